@@ -84,7 +84,7 @@ async def mk_origin(oid, host="127.0.0.1", family=socket.AF_INET):
 
 
 def build(args, wd, origins):
-    P = {k: free_port() for k in ("B.http", "B.socks", "B.quic", "B.api", "A.http", "A.api", "relay", "A.socks-ql")}
+    P = {k: free_port() for k in ("B.http", "B.socks", "B.quic", "B.api", "A.http", "A.api", "relay", "A.socks-ql", "hfake")}
     tag = {ck: 2000 + i for i, ck in enumerate(UDPC)}
     a_l = [{"name": "http", "bind": "127.0.0.1:%d" % P["A.http"]}]
     rules = []
@@ -94,11 +94,15 @@ def build(args, wd, origins):
         a_l.append({"name": "socks-" + ck, "type": "socks", "bind": "127.0.0.1:%d" % P["A.socks-" + ck]})
         a_l.append({"name": "rev-" + ck, "type": "reverse", "protocol": "udp", "bind": "127.0.0.1:%d" % P["A.rev-" + ck], "target": "127.0.0.1:%d" % origins[0].port})
         rules.append({"filter": "request.listener == \"socks-%s\" || request.listener == \"rev-%s\" || request.target.port == %d" % (ck, ck, tag[ck]), "target": ck})
+    P["A.rev-hfake"] = free_port()
+    a_l.append({"name": "rev-hfake", "type": "reverse", "protocol": "udp", "bind": "127.0.0.1:%d" % P["A.rev-hfake"], "target": "127.0.0.1:%d" % origins[0].port})
+    rules.append({"filter": "request.listener == \"rev-hfake\"", "target": "hfake"})
     a_l.append({"name": "socks-ql", "type": "socks", "bind": "127.0.0.1:%d" % P["A.socks-ql"]})
     rules.append({"filter": "request.listener == \"socks-ql\"", "target": "ql"})
     a_c = [
         {"name": "ql", "type": "quic", "server": "localhost", "port": P["relay"], "tls": tls_client(), "bind": "127.0.0.1:0"},
         {"name": "direct"},
+        {"name": "hfake", "type": "http", "server": "127.0.0.1", "port": P["hfake"]},
         {"name": "h", "type": "http", "server": "127.0.0.1", "port": P["B.http"]},
         {"name": "s5", "type": "socks", "server": "127.0.0.1", "port": P["B.socks"]},
         {"name": "q", "type": "quic", "server": "localhost", "port": P["B.quic"], "tls": tls_client(), "bind": "127.0.0.1:0"},
@@ -124,7 +128,7 @@ class Session:
         self.seq = 0
         self.rx_event = asyncio.Event()
 
-    async def open(self, P, tag, rebind_port=None):
+    async def open(self, P, tag, rebind_port=None, pipeline_first=None):
         loop = asyncio.get_running_loop()
         if self.lk == "socks":
             self.ctl = await open_conn("127.0.0.1", P["A.socks-" + self.ck])
@@ -136,7 +140,16 @@ class Session:
             self.relay = ("127.0.0.1", P["A.rev-" + self.ck])
         elif self.lk == "http":
             self.ctl = await open_conn("127.0.0.1", P["A.http"])
-            self.ctl.write(http_connect_bytes("0.0.0.0", tag[self.ck], [("Proxy-Protocol", "udp")]))
+            wire = http_connect_bytes("0.0.0.0", tag[self.ck], [("Proxy-Protocol", "udp")])
+            if pipeline_first:
+                # the first frame travels in the same segment as the CONNECT request (the session id is not known yet: 0)
+                seed, origin, size = pipeline_first
+                self.seq += 1
+                p = mk_payload(seed, self.client, self.session, origin.oid, self.seq, size)
+                self.sent[self.seq] = (origin, p)
+                attr = bytes([1, 6]) + socket.inet_pton(socket.AF_INET, "127.0.0.1") + struct.pack(">H", origin.port)
+                wire += b"RPFM" + struct.pack(">IHH", 0, len(attr), len(p)) + attr + p
+            self.ctl.write(wire)
             await self.ctl.drain()
             st, hdrs = await http_reply(self.ctl)
             if st != 200:
@@ -262,6 +275,29 @@ async def main(args):
     # source address), which these IPv4 loopback clients do not create; they are left out deliberately.
     A, B, P, tag = build(args, wd, origins)
     sessions = []
+
+    async def fake_http_udp_upstream(r, w):
+        """an upstream proxy for CONNECT + inline frames that sends a frame in ONE segment with its 200 reply, then echoes every
+        frame it gets with the payload prefixed by 'echo:'"""
+        try:
+            await r.readuntil(b"\r\n\r\n")
+            attr = bytes([1, 6]) + socket.inet_pton(socket.AF_INET, "127.0.0.1") + struct.pack(">H", origins[0].port)
+            greet = b"G-from-upstream-" + bytes(40)
+            w.write(b"HTTP/1.1 200 OK\r\nSession-Id: 7\r\n\r\n" + b"RPFM" + struct.pack(">IHH", 7, len(attr), len(greet)) + attr + greet)
+            await w.drain()
+            while True:
+                head = await r.readexactly(12)
+                sid, alen, blen = struct.unpack(">IHH", head[4:])
+                a = await r.readexactly(alen) if alen else b""
+                b = await r.readexactly(blen) if blen else b""
+                b = b"echo:" + b
+                w.write(b"RPFM" + struct.pack(">IHH", 7, len(a), len(b)) + a + b)
+                await w.drain()
+        except Exception:
+            pass
+        finally:
+            w.close()
+    hfake = await asyncio.start_server(fake_http_udp_upstream, "127.0.0.1", P["hfake"])
     try:
         await B.start()
         await A.start()
@@ -375,6 +411,48 @@ async def main(args):
         if got_empty != sent_empty:
             out.violation("empty-payload datagrams are not delivered exactly once", {"sent": sent_empty, "delivered": got_empty})
         origins[1].got = [x for x in origins[1].got if x[2] != b""]
+        # ---------------- the first frame pipelined behind the CONNECT request in one segment (listener side hand-off), and a frame
+        # that an upstream proxy sends in one segment with its 200 reply (connector side hand-off)
+        for ck in UDPC:
+            out.case()
+            sess_id += 1
+            s = Session("http", ck, client_id + 80, sess_id)
+            sessions.append(s)
+            try:
+                await s.open(P, tag, pipeline_first=(args.seed, origins[0], 200))
+            except Exception as e:
+                out.violation("UDP association could not be established: http via %s" % ck, {"error": repr(e)[:200], "pipelined_first_frame": True})
+                continue
+            out.nontrivial(("http", ck, "first-frame-pipelined"))
+            if await s.wait_reply(1, 2.5) is None:
+                p = s.sent[1][1]
+                out.violation("datagram pipelined behind the CONNECT request is lost: http via %s" % ck, {"reached_origin": any(d == p for (_, _, d) in origins[0].got)})
+            seq, _ = s.send(args.seed, origins[0], 100)
+            if await s.wait_reply(seq, 2.5) is None:
+                out.violation("datagram lost without network loss (later datagram of a session): http via %s" % ck, {"after_pipelined_first_frame": True})
+        out.case()
+        greet = b"G-from-upstream-" + bytes(40)
+        u = socket.socket(socket.AF_INET, socket.SOCK_DGRAM)
+        u.bind(("127.0.0.1", 0))
+        u.setblocking(False)
+        try:
+            loop = asyncio.get_running_loop()
+            await loop.sock_sendto(u, b"hello-1", ("127.0.0.1", P["A.rev-hfake"]))
+            got = []
+            t_end = now() + 3.0
+            while now() < t_end and len(got) < 2:
+                try:
+                    d, _ = await asyncio.wait_for(loop.sock_recvfrom(u, 65536), 0.5)
+                    got.append(d)
+                except asyncio.TimeoutError:
+                    pass
+            out.nontrivial(("rev", "hfake", "frame-with-200"))
+            if got.count(greet) != 1:
+                out.violation("frame sent by the upstream proxy in one segment with its 200 reply is not delivered exactly once", {"received": [g[:24].hex() for g in got], "times": got.count(greet)})
+            if b"echo:hello-1" not in got:
+                out.violation("first datagram of a reverse-UDP session through an http upstream is lost", {"received": [g[:24].hex() for g in got]})
+        finally:
+            u.close()
         # ---------------- small bursts: 24 x 64-byte datagrams back to back on one session at a time. The whole burst is a few
         # kilobytes, far below every socket buffer on the way, so no hop can lose any of it for lack of buffer space
         async def small_burst(lk, ck, cid, sid):
@@ -583,6 +661,7 @@ async def main(args):
             s.close()
         A.cleanup()
         B.cleanup()
+        hfake.close()
     out.finish()
 
 
